@@ -18,6 +18,7 @@ Partial aspects
 -/
 import KafkaVerif.Lemmas.GroupInv
 import KafkaVerif.Lemmas.GroupHb
+import KafkaVerif.Lemmas.GroupHbAlive
 import KafkaVerif.Gen.GroupFacts
 
 namespace KV.Group.C15
@@ -30,6 +31,23 @@ the decrement; `Start` has exactly one `g.routines++` and one `g.routines--`. -/
 theorem accounting_matches_source :
     KV.Gen.Group.closeWaitTest = (">", "0") ∧ KV.Gen.Group.startLastRoutineTest = ("==", "0") ∧
     KV.Gen.Group.startRoutinesIncDec = (1, 1) := by decide
+
+/-- `NewReader` feeds every group option of the ReaderConfig into the field of the same name of the ConsumerGroupConfig
+(`ID ← GroupID`, `Topics ← getTopics()`), and all of them are fed (re-read from reader.go on every run). -/
+theorem reader_options_pass_through :
+    KV.Gen.Group.readerGroupOptions.all
+      (fun p => p.1 == p.2 || p == ("ID", "GroupID") || p == ("Topics", "getTopics()")) = true ∧
+    ["Brokers", "Dialer", "GroupBalancers", "HeartbeatInterval", "ID", "JoinGroupBackoff", "PartitionWatchInterval",
+     "RebalanceTimeout", "RetentionTime", "SessionTimeout", "StartOffset", "Topics", "WatchPartitionChanges"].all
+      (fun f => KV.Gen.Group.readerGroupOptions.any (fun p => p.1 == f)) = true := by decide
+
+/-- regenerated: heartbeat and OffsetCommit requests are built from the generation's own ids (`g.ID`, `g.MemberID`,
+`g.GroupID`), LeaveGroup from the group id — what `heartbeat_ids` / the commit monitors assume of the request builders -/
+theorem requests_carry_generation_ids :
+    KV.Gen.Group.heartbeatRequestFields = [("GenerationID", "ID"), ("GroupID", "GroupID"), ("MemberID", "MemberID")] ∧
+    [("GenerationID", "ID"), ("GroupID", "GroupID"), ("MemberID", "MemberID"), ("RetentionTime", "retentionMillis")].all
+      (fun p => KV.Gen.Group.commitRequestFields.contains p) = true ∧
+    KV.Gen.Group.leaveRequestFields.contains ("GroupID", "ID") = true := by decide
 
 /-! ### joined_iff -/
 
@@ -306,6 +324,26 @@ theorem heartbeat_from_creation (c : Cfg) (s : St) (h : Reachable c s)
     (hp : s.pc = .handing ∨ s.pc = .running) : s.cur.hb.isSome = true := by
   apply inv3_reachable c s h
   rcases hp with hp | hp <;> rw [hp] <;> rfl
+
+/-- "for as long as the generation lives": while the generation is handed over or running, has not ended
+(`closed = false`) and no exit section is pending, its heartbeat function is inside its loop — waiting for the next tick,
+inside a heartbeat call, or holding a failure it is about to return with (which then ends the generation). -/
+theorem heartbeat_alive_while_generation_lives (c : Cfg) (s : St) (h : Reachable c s)
+    (hp : s.pc = .handing ∨ s.pc = .running) (hc : s.cur.closed = false) (hr : s.cur.returning = 0) :
+    s.cur.hb = some .idle ∨ s.cur.hb = some .calling ∨ s.cur.hb = some .failed := by
+  have h3 := heartbeat_from_creation c s h hp
+  have h4 := inv4_reachable c s h
+  cases hh : s.cur.hb with
+  | none => rw [hh] at h3; cases h3
+  | some p =>
+    cases p with
+    | idle => exact .inl rfl
+    | calling => exact .inr (.inl rfl)
+    | failed => exact .inr (.inr rfl)
+    | done =>
+      rcases h4 hh with h5 | h5
+      · rw [hc] at h5; cases h5
+      · omega
 
 /-- the hand-over step itself is only possible with a started heartbeat function -/
 theorem handed_has_heartbeat (c : Cfg) (s s' : St) (h : Reachable c s) (g : Nat)
